@@ -1,6 +1,6 @@
 #!/bin/bash
 # usage: mtp.sh <patchfile> <Cxx> [Cyy ...]  — run checks against a private copy of /repo with the patch applied
-PATCH=$1; shift
+PATCH=$(readlink -f "$1"); shift
 D=/tmp/mtp_$$
 rm -rf $D && mkdir -p $D && cp -r /repo $D/repo && rsync -a --exclude .git --exclude replays /verif/ $D/verif/
 (cd $D/repo && git apply --whitespace=nowarn "$PATCH") || { echo "patch does not apply"; rm -rf $D; exit 2; }
